@@ -371,6 +371,7 @@ class Body:
 
     def mk_load(self, root, path, ty=None, pt=None, span=None):
         # normalise through refs, loads, aggregates, updates
+        keep_pt = False
         while True:
             if not path:
                 return root
@@ -378,6 +379,10 @@ class Body:
                 root, path = root.args[0], root.args[1] + path[1:]
                 continue
             if root.kind == 'load':
+                if path[0] != '*' and root.point is not None:
+                    # projection of a value that was already read from memory: the read happened there
+                    pt = root.extra.get('read_point', root.point)
+                    keep_pt = True
                 root, path = root.args[0], root.args[1] + path
                 continue
             if root.kind == 'agg' and path[0] != '*' and isinstance(path[0], str):
@@ -405,7 +410,7 @@ class Body:
                     root = root.args[0]
                     continue
             break
-        return self.new('load', (root, path), ty=ty, point=pt, span=span)
+        return self.new('load', (root, path), ty=ty, point=pt, span=span, extra={'read_point': pt} if keep_pt else None)
 
     def mk_ref(self, root, path, mut, ty, pt, span):
         # &(*x) == x ;  ref of load(r,p) == ref(r, p)
